@@ -17,7 +17,7 @@ ASSUMPTIONS = [
 
 
 def run(check):
-    check.run_rule('C17.R1', lambda c: rule_cm_window(c, {'restore': None, 'typestate': None, 'usage': None, 'confined': 'C17.R1', 'probe': 'C17.R4'}))
+    check.run_rule('C17.R1', lambda c: rule_cm_window(c, {'restore': None, 'typestate': None, 'usage': None, 'confined': 'C17.R1', 'probe': 'C17.R4', 'exit_no_delete': 'C17.R5'}))
     check.run_rule('C17.R1b', lambda c: rule_recursion_guard_emptied(c, None, 'C17.R1'))
     check.run_rule('C17.R1c', lambda c: rule_shared_windows(c, 'C17.R1'))
     from ..rules_modifiers import rule_cache_publication
